@@ -1,0 +1,19 @@
+//go:build verif
+
+package proxy
+
+// Export for the external verification harness of the BungeeCord adapter (C26).
+// No logic lives here.
+
+// VerifListPlayerOnServer puts an online player into the player list of a registered
+// server without touching the player's connections: the membership a player still has
+// on its previous server in the middle of a server switch, before the old connection's
+// Disconnected() has run. It reports whether player and server exist.
+func (p *Proxy) VerifListPlayerOnServer(serverName, playerName string) bool {
+	s, player := p.server(serverName), p.playerByName(playerName)
+	if s == nil || player == nil {
+		return false
+	}
+	s.players.add(player)
+	return true
+}
